@@ -20,8 +20,8 @@ use easy_ml::tensors::indexing::{
     TensorReferenceMutIterator, TensorTranspose,
 };
 use easy_ml::tensors::views::{
-    IndexRange as TIndexRange, TensorMask, TensorMut, TensorRange, TensorRef, TensorRename,
-    TensorReverse, TensorView,
+    IndexRange as TIndexRange, TensorChain, TensorMask, TensorMut, TensorRange, TensorRef,
+    TensorRename, TensorReverse, TensorStack, TensorView,
 };
 use easy_ml::tensors::Tensor;
 use std::cell::RefCell;
@@ -53,6 +53,15 @@ impl Dc {
     }
     fn show(&self) -> String {
         if self.id == PLACEHOLDER || self.id == ZERO_PLACEHOLDER { "P".into() } else { self.id.to_string() }
+    }
+}
+
+impl Dc {
+    /// render an id read from a leaf (the temporary must not count as a drop)
+    fn show_forget(self) -> String {
+        let s = self.show();
+        std::mem::forget(self);
+        s
     }
 }
 
@@ -277,23 +286,52 @@ where
     recs.join(";")
 }
 
-/// where the cell of a reference lives, as an offset from the leaf's first element
+/// ids of leaf `j` are `j * LEAF_STRIDE + offset`
+const LEAF_STRIDE: usize = 100_000;
+
+/// where the cell of a reference lives: the leaf whose storage contains the address and the
+/// offset from that leaf's first element, as the id `leaf * LEAF_STRIDE + offset`
 #[derive(Clone, Copy)]
-struct Base(*const u64);
+struct Base {
+    n: usize,
+    leaves: [(*const u64, usize); 4],
+}
 
 impl Base {
-    fn cell(&self, r: &u64) -> String {
-        let p = r as *const u64 as usize;
-        let b = self.0 as usize;
-        if p < b || (p - b) % 8 != 0 {
-            return format!("!addr{:x}", p);
+    /// a single leaf of unknown extent (every address at or after its base counts as inside)
+    fn single(p: *const u64) -> Base {
+        Base { n: 1, leaves: [(p, usize::MAX / 16), (p, 0), (p, 0), (p, 0)] }
+    }
+    fn of(leaves: &[(*const u64, usize)]) -> Base {
+        assert!(!leaves.is_empty() && leaves.len() <= 4);
+        let mut a = [leaves[0]; 4];
+        for (j, l) in leaves.iter().enumerate() {
+            a[j] = *l;
         }
-        let o = (p - b) / 8;
-        if *r != o as u64 {
-            // ids equal offsets until something is written: a stale or foreign cell
-            format!("{}!val{}", o, *r)
-        } else {
-            o.to_string()
+        Base { n: leaves.len(), leaves: a }
+    }
+    fn id_of(&self, p: *const u64) -> Option<usize> {
+        let p = p as usize;
+        for j in 0..self.n {
+            let (b, len) = self.leaves[j];
+            let b = b as usize;
+            if p >= b && (p - b) % 8 == 0 && (p - b) / 8 < len {
+                return Some(j * LEAF_STRIDE + (p - b) / 8);
+            }
+        }
+        None
+    }
+    fn cell(&self, r: &u64) -> String {
+        match self.id_of(r as *const u64) {
+            None => format!("!addr{:x}", r as *const u64 as usize),
+            Some(id) => {
+                if *r != id as u64 {
+                    // values equal ids until something is written: a stale or foreign cell
+                    format!("{}!val{}", id, *r)
+                } else {
+                    id.to_string()
+                }
+            }
         }
     }
 }
@@ -359,7 +397,7 @@ const BUMP: u64 = 1000;
 
 fn write_all(refs: Vec<&mut u64>, base: Base) -> Vec<usize> {
     let cells: Vec<usize> =
-        refs.iter().map(|r| ((*r as *const u64 as usize).wrapping_sub(base.0 as usize)) / 8).collect();
+        refs.iter().map(|r| base.id_of(&**r as *const u64).unwrap_or(usize::MAX)).collect();
     for r in refs {
         *r += BUMP;
     }
@@ -368,15 +406,22 @@ fn write_all(refs: Vec<&mut u64>, base: Base) -> Vec<usize> {
 
 /// every written cell was bumped exactly once, nothing else changed, no cell handed out twice
 fn distinct_report(cells: &[usize], leaf_now: &[u64]) -> &'static str {
-    let mut seen = vec![0u32; leaf_now.len()];
-    for &c in cells {
-        if c >= seen.len() {
-            return " distinct=OUTSIDE";
+    let now: Vec<(usize, u64)> = leaf_now.iter().copied().enumerate().collect();
+    distinct_report_ids(cells, &now)
+}
+
+/// the same for several leaves: `now` lists (id, current value) of every cell of every leaf
+fn distinct_report_ids(cells: &[usize], now: &[(usize, u64)]) -> &'static str {
+    let mut seen: std::collections::BTreeMap<usize, u32> = now.iter().map(|(id, _)| (*id, 0)).collect();
+    for c in cells {
+        match seen.get_mut(c) {
+            None => return " distinct=OUTSIDE",
+            Some(k) => *k += 1,
         }
-        seen[c] += 1;
     }
-    for (o, &v) in leaf_now.iter().enumerate() {
-        if seen[o] > 1 || v != o as u64 + BUMP * seen[o] as u64 {
+    for (id, v) in now {
+        let k = seen[id];
+        if k > 1 || *v != *id as u64 + BUMP * k as u64 {
             return " distinct=ALIAS";
         }
     }
@@ -487,10 +532,14 @@ where
 /// After the moved-out values, the iterator and the leaf have all been dropped: every original
 /// value was dropped exactly once and every placeholder that was made was dropped.
 fn drops_report(total: usize, numeric: bool) -> String {
+    drops_report_ids(0..total, numeric)
+}
+
+fn drops_report_ids(ids: impl Iterator<Item = usize>, numeric: bool) -> String {
     if !producer_ok(numeric) {
         return " drops=BAD(wrong-producer)".into();
     }
-    for id in 0..total {
+    for id in ids {
         if drops_of(id) != 1 {
             return format!(" drops=BAD(id{}x{})", id, drops_of(id));
         }
@@ -632,7 +681,16 @@ fn build_tensor_with<E: 'static, const D: usize>(
     ads: &[TAd],
     panicking: bool,
 ) -> Result<BoxT<E, D>, String> {
-    let mut src: BoxT<E, D> = Box::new(leaf);
+    apply_adaptors(Box::new(leaf), ads, panicking)
+}
+
+/// the adaptors, in order, over an already boxed source
+fn apply_adaptors<E: 'static, const D: usize>(
+    src: BoxT<E, D>,
+    ads: &[TAd],
+    panicking: bool,
+) -> Result<BoxT<E, D>, String> {
+    let mut src = src;
     for ad in ads {
         src = match ad {
             TAd::Range(rs) => {
@@ -781,11 +839,85 @@ fn access_names<const D: usize>(ads: &[TAd]) -> Option<[&'static str; D]> {
     }
 }
 
+/// every reference flavour over a boxed source: the iterator structs' constructors
+/// (`via=boxed`) or `TensorView` methods (`via=boxedview`), with `split` / `wvia` variants
+fn boxed_u64<const D: usize>(
+    src: BoxT<u64, D>,
+    op: &Op,
+    base: Base,
+) -> Result<(String, Option<Vec<usize>>), String> {
+    let mut src = src;
+    let n = op.n;
+    let into = op.into;
+    let split = op.split.unwrap_or(0);
+    let mut written: Option<Vec<usize>> = None;
+    let (via, f, wi) = (op.via, op.f, op.wi);
+    let recs: String = match (via, f, wi) {
+        // with index for `split` calls, then `source()` and on without index
+        ("boxed", "copy", true) if op.split.is_some() => {
+            run_copy_split(|| wi!(into, TensorIterator::from(&src)), split, n)
+        }
+        ("boxed", "ref", true) if op.split.is_some() => {
+            run_ref_split(|| wi!(into, TensorReferenceIterator::from(&src)), split, n, base)
+        }
+        ("boxed", "mut", true) if op.split.is_some() => {
+            let (s, w) = run_mut_split(
+                || wi!(into, TensorReferenceMutIterator::from(&mut src)),
+                split,
+                n,
+                base,
+            );
+            written = Some(w);
+            s
+        }
+        ("boxed", "copy", false) => run_copy(|| TensorIterator::from(&src), n),
+        ("boxed", "copy", true) => run_copy_wi(|| wi!(into, TensorIterator::from(&src)), n),
+        ("boxed", "ref", false) => run_ref(|| TensorReferenceIterator::from(&src), n, base),
+        ("boxed", "ref", true) => {
+            run_ref_wi(|| wi!(into, TensorReferenceIterator::from(&src)), n, base)
+        }
+        ("boxed", "mut", false) => {
+            let (s, w) = run_mut(|| TensorReferenceMutIterator::from(&mut src), n, base);
+            written = Some(w);
+            s
+        }
+        ("boxed", "mut", true) => {
+            let (s, w) =
+                run_mut_wi(|| wi!(into, TensorReferenceMutIterator::from(&mut src)), n, base);
+            written = Some(w);
+            s
+        }
+        ("boxedview", f, wi) => {
+            let mut v = TensorView::from(src);
+            match (f, wi) {
+                ("copy", false) => run_copy(|| v.iter(), n),
+                ("copy", true) => run_copy_wi(|| wi!(into, v.iter()), n),
+                ("ref", false) => run_ref(|| v.iter_reference(), n, base),
+                ("ref", true) => run_ref_wi(|| wi!(into, v.iter_reference()), n, base),
+                ("mut", false) => {
+                    let (s, w) = run_mut(|| v.iter_reference_mut(), n, base);
+                    written = Some(w);
+                    s
+                }
+                ("mut", true) => {
+                    let (s, w) = run_mut_wi(|| wi!(into, v.iter_reference_mut()), n, base);
+                    written = Some(w);
+                    s
+                }
+                _ => "bad-op".into(),
+            }
+        }
+        _ => "bad-op".into(),
+    }
+;
+    Ok((recs, written))
+}
+
 fn tensor_u64<const D: usize>(shape: &[(&'static str, usize)], ads: &[TAd], op: &Op) -> String {
     let shape: [(&'static str, usize); D] = shape_array(shape);
     let total: usize = shape.iter().map(|d| d.1).product();
     let leaf = Leaf::new(Tensor::from(shape, (0..total as u64).collect()));
-    let base = Base(TensorRef::get_reference(leaf.get(), [0; D]).unwrap() as *const u64);
+    let base = Base::single(TensorRef::get_reference(leaf.get(), [0; D]).unwrap() as *const u64);
     let n = op.n;
     let into = op.into;
     let split = op.split.unwrap_or(0);
@@ -871,67 +1003,17 @@ fn tensor_u64<const D: usize>(shape: &[(&'static str, usize)], ads: &[TAd], op: 
                 }
             }
             // any composition, through Box<dyn TensorMut>
-            (via, f, wi) => {
-                let mut src = match build_tensor(t, ads) {
+            (_, _, _) => {
+                let src = match build_tensor(t, ads) {
                     Ok(s) => s,
                     Err(e) => return e,
                 };
-                match (via, f, wi) {
-                    // with index for `split` calls, then `source()` and on without index
-                    ("boxed", "copy", true) if op.split.is_some() => {
-                        run_copy_split(|| wi!(into, TensorIterator::from(&src)), split, n)
-                    }
-                    ("boxed", "ref", true) if op.split.is_some() => {
-                        run_ref_split(|| wi!(into, TensorReferenceIterator::from(&src)), split, n, base)
-                    }
-                    ("boxed", "mut", true) if op.split.is_some() => {
-                        let (s, w) = run_mut_split(
-                            || wi!(into, TensorReferenceMutIterator::from(&mut src)),
-                            split,
-                            n,
-                            base,
-                        );
-                        written = Some(w);
+                match boxed_u64(src, op, base) {
+                    Ok((s, w)) => {
+                        written = w;
                         s
                     }
-                    ("boxed", "copy", false) => run_copy(|| TensorIterator::from(&src), n),
-                    ("boxed", "copy", true) => run_copy_wi(|| wi!(into, TensorIterator::from(&src)), n),
-                    ("boxed", "ref", false) => run_ref(|| TensorReferenceIterator::from(&src), n, base),
-                    ("boxed", "ref", true) => {
-                        run_ref_wi(|| wi!(into, TensorReferenceIterator::from(&src)), n, base)
-                    }
-                    ("boxed", "mut", false) => {
-                        let (s, w) = run_mut(|| TensorReferenceMutIterator::from(&mut src), n, base);
-                        written = Some(w);
-                        s
-                    }
-                    ("boxed", "mut", true) => {
-                        let (s, w) =
-                            run_mut_wi(|| wi!(into, TensorReferenceMutIterator::from(&mut src)), n, base);
-                        written = Some(w);
-                        s
-                    }
-                    ("boxedview", f, wi) => {
-                        let mut v = TensorView::from(src);
-                        match (f, wi) {
-                            ("copy", false) => run_copy(|| v.iter(), n),
-                            ("copy", true) => run_copy_wi(|| wi!(into, v.iter()), n),
-                            ("ref", false) => run_ref(|| v.iter_reference(), n, base),
-                            ("ref", true) => run_ref_wi(|| wi!(into, v.iter_reference()), n, base),
-                            ("mut", false) => {
-                                let (s, w) = run_mut(|| v.iter_reference_mut(), n, base);
-                                written = Some(w);
-                                s
-                            }
-                            ("mut", true) => {
-                                let (s, w) = run_mut_wi(|| wi!(into, v.iter_reference_mut()), n, base);
-                                written = Some(w);
-                                s
-                            }
-                            _ => "bad-op".into(),
-                        }
-                    }
-                    _ => "bad-op".into(),
+                    Err(e) => return e,
                 }
             }
         }
@@ -943,6 +1025,31 @@ fn tensor_u64<const D: usize>(shape: &[(&'static str, usize)], ads: &[TAd], op: 
         }
         None => recs,
     }
+}
+
+/// the owned iterator over a boxed source (`via=boxed[_numeric]`, `via=boxedview`)
+fn boxed_owned<const D: usize>(src: BoxT<Dc, D>, op: &Op) -> Result<(String, Vec<Dc>), String> {
+    let n = op.n;
+    let into = op.into;
+    let split = op.split.unwrap_or(0);
+    let (via, numeric) = match op.via.strip_suffix("_numeric") {
+        Some(v) => (v, true),
+        None => (op.via, false),
+    };
+    let wi = op.wi;
+    Ok(match (via, wi) {
+        ("boxed", true) if op.split.is_some() => {
+            run_owned_split(move || wi!(into, own!(numeric, TensorOwnedIterator, src)), split, n)
+        }
+        ("boxed", false) => run_owned(move || own!(numeric, TensorOwnedIterator, src), n),
+        ("boxed", true) => run_owned_wi(move || wi!(into, own!(numeric, TensorOwnedIterator, src)), n),
+        ("boxedview", false) => run_owned(move || TensorView::from(src).iter_owned(), n),
+        ("boxedview", true) => {
+            run_owned_wi(move || wi!(into, TensorView::from(src).iter_owned()), n)
+        }
+        _ => return Err("bad-op".into()),
+    }
+)
 }
 
 fn tensor_owned<const D: usize>(shape: &[(&'static str, usize)], ads: &[TAd], op: &Op) -> String {
@@ -986,22 +1093,14 @@ fn tensor_owned<const D: usize>(shape: &[(&'static str, usize)], ads: &[TAd], op
                     run_owned(move || own!(numeric, TensorOwnedIterator, a), n)
                 }
             }
-            (via, wi) => {
+            (_, _) => {
                 let src = match build_tensor(t, ads) {
                     Ok(s) => s,
                     Err(e) => return e,
                 };
-                match (via, wi) {
-                    ("boxed", true) if op.split.is_some() => {
-                        run_owned_split(move || wi!(into, own!(numeric, TensorOwnedIterator, src)), split, n)
-                    }
-                    ("boxed", false) => run_owned(move || own!(numeric, TensorOwnedIterator, src), n),
-                    ("boxed", true) => run_owned_wi(move || wi!(into, own!(numeric, TensorOwnedIterator, src)), n),
-                    ("boxedview", false) => run_owned(move || TensorView::from(src).iter_owned(), n),
-                    ("boxedview", true) => {
-                        run_owned_wi(move || wi!(into, TensorView::from(src).iter_owned()), n)
-                    }
-                    _ => return "bad-op".into(),
+                match boxed_owned(src, op) {
+                    Ok(r) => r,
+                    Err(e) => return e,
                 }
             }
         }
@@ -1014,6 +1113,286 @@ fn tensor_owned<const D: usize>(shape: &[(&'static str, usize)], ads: &[TAd], op
     drop(moved);
     drop(leaf);
     format!("{}{}", recs, drops_report(total, numeric))
+}
+
+
+// ---------------------------------------------------------------------------------------------
+// TensorStack / TensorChain sources (several leaves)
+// ---------------------------------------------------------------------------------------------
+
+#[derive(Clone, Debug)]
+enum Root {
+    /// `n` tensors of `shape`, each under `pre`, stacked along a new dimension `name` at `pos`
+    Stack { pos: usize, name: &'static str, form: String, n: usize, shape: Vec<(&'static str, usize)>, pre: Vec<TAd> },
+    /// tensors of `shapes`, each under `pre`, chained along `name`
+    Chain { name: &'static str, form: String, shapes: Vec<Vec<(&'static str, usize)>>, pre: Vec<TAd> },
+}
+
+/// a leaf whose dimensionality has been forgotten
+trait LeafDyn<E> {
+    /// the cells in storage order (read through the checked accessor)
+    fn map_cells(&self, f: &dyn Fn(&E) -> u64) -> Vec<u64>;
+}
+
+impl<E, const DS: usize> LeafDyn<E> for Leaf<Tensor<E, DS>> {
+    fn map_cells(&self, f: &dyn Fn(&E) -> u64) -> Vec<u64> {
+        tensor_cells(self.get(), |e| f(e))
+    }
+}
+
+/// base address and element count (taken before the leaf is lent out), and the leaf
+struct LeafInfo<E> {
+    base: *const E,
+    len: usize,
+    leaf: Box<dyn LeafDyn<E>>,
+}
+
+fn any_cast<A: 'static, B: 'static>(a: A) -> B {
+    let b: Box<dyn std::any::Any> = Box::new(a);
+    match b.downcast::<B>() {
+        Ok(b) => *b,
+        Err(_) => panic!("dimension dispatch mismatch"),
+    }
+}
+
+/// leaf `j` holds the ids `j * LEAF_STRIDE + offset`; every source is its leaf under `pre`
+fn build_sources<E: 'static, const DS: usize>(
+    shapes: &[Vec<(&'static str, usize)>],
+    pre: &[TAd],
+    make: fn(u64) -> E,
+) -> Result<(Vec<BoxT<E, DS>>, Vec<LeafInfo<E>>), String> {
+    let mut srcs = vec![];
+    let mut leaves = vec![];
+    for (j, shape) in shapes.iter().enumerate() {
+        if shape.len() != DS {
+            return Err("reject".into());
+        }
+        let shape_a: [(&'static str, usize); DS] = shape_array(shape);
+        let total: usize = shape_a.iter().map(|d| d.1).product();
+        let data: Vec<E> = (0..total).map(|o| make((j * LEAF_STRIDE + o) as u64)).collect();
+        let t = match catch(move || Tensor::from(shape_a, data)) {
+            Ok(t) => t,
+            Err(_) => return Err("reject".into()),
+        };
+        let leaf = Leaf::new(t);
+        let base = TensorRef::get_reference(leaf.get(), [0; DS]).unwrap() as *const E;
+        // Safety: the sources built from the borrow are dropped before the leaves are read again
+        let lent: &'static mut Tensor<E, DS> = unsafe { leaf.lend() };
+        let src = build_tensor_with(lent, pre, false);
+        leaves.push(LeafInfo { base, len: total, leaf: Box::new(leaf) });
+        srcs.push(src?);
+    }
+    Ok((srcs, leaves))
+}
+
+/// `$Ty::from(sources, along)` for the array forms `[S; 1..=4]` and the tuple forms of arity 2..=4
+macro_rules! combine {
+    ($Ty:ident, $srcs:expr, $form:expr, $along:expr) => {{
+        let mut srcs = $srcs;
+        let n = srcs.len();
+        match ($form, n) {
+            ("array", 1) => match <[_; 1]>::try_from(srcs) {
+                Ok(a) => Box::new($Ty::<_, [_; 1], _>::from(a, $along)),
+                Err(_) => unreachable!(),
+            },
+            ("array", 2) => match <[_; 2]>::try_from(srcs) {
+                Ok(a) => Box::new($Ty::<_, [_; 2], _>::from(a, $along)),
+                Err(_) => unreachable!(),
+            },
+            ("array", 3) => match <[_; 3]>::try_from(srcs) {
+                Ok(a) => Box::new($Ty::<_, [_; 3], _>::from(a, $along)),
+                Err(_) => unreachable!(),
+            },
+            ("array", 4) => match <[_; 4]>::try_from(srcs) {
+                Ok(a) => Box::new($Ty::<_, [_; 4], _>::from(a, $along)),
+                Err(_) => unreachable!(),
+            },
+            ("tuple", 2) => {
+                let b = srcs.pop().unwrap();
+                let a = srcs.pop().unwrap();
+                Box::new($Ty::<_, (_, _), _>::from((a, b), $along))
+            }
+            ("tuple", 3) => {
+                let c = srcs.pop().unwrap();
+                let b = srcs.pop().unwrap();
+                let a = srcs.pop().unwrap();
+                Box::new($Ty::<_, (_, _, _), _>::from((a, b, c), $along))
+            }
+            ("tuple", 4) => {
+                let d = srcs.pop().unwrap();
+                let c = srcs.pop().unwrap();
+                let b = srcs.pop().unwrap();
+                let a = srcs.pop().unwrap();
+                Box::new($Ty::<_, (_, _, _, _), _>::from((a, b, c, d), $along))
+            }
+            (form, n) => panic!("no {} form of {} sources", form, n),
+        }
+    }};
+}
+
+fn combine_chain<E: 'static, const D: usize>(
+    srcs: Vec<BoxT<E, D>>,
+    form: &str,
+    along: &'static str,
+) -> Result<BoxT<E, D>, String> {
+    match catch(move || -> BoxT<E, D> { combine!(TensorChain, srcs, form, along) }) {
+        Ok(b) => Ok(b),
+        Err(PanicKind::Explicit) => Err("reject".into()),
+        Err(k) => Err(panic_str(k)),
+    }
+}
+
+macro_rules! stack_fn {
+    ($name:ident, $DS:literal, $D:literal) => {
+        fn $name<E: 'static>(
+            srcs: Vec<BoxT<E, $DS>>,
+            form: &str,
+            along: (usize, &'static str),
+        ) -> Result<BoxT<E, $D>, String> {
+            match catch(move || -> BoxT<E, $D> { combine!(TensorStack, srcs, form, along) }) {
+                Ok(b) => Ok(b),
+                Err(PanicKind::Explicit) => Err("reject".into()),
+                Err(k) => Err(panic_str(k)),
+            }
+        }
+    };
+}
+stack_fn!(stack_0, 0, 1);
+stack_fn!(stack_1, 1, 2);
+stack_fn!(stack_2, 2, 3);
+stack_fn!(stack_3, 3, 4);
+stack_fn!(stack_4, 4, 5);
+stack_fn!(stack_5, 5, 6);
+
+/// the stacked / chained source under the `post` adaptors, and its leaves
+fn build_zip<E: 'static, const D: usize>(
+    root: &Root,
+    post: &[TAd],
+    make: fn(u64) -> E,
+    panicking: bool,
+) -> Result<(BoxT<E, D>, Vec<LeafInfo<E>>), String> {
+    let (src, leaves): (BoxT<E, D>, Vec<LeafInfo<E>>) = match root {
+        Root::Chain { name, form, shapes, pre } => {
+            let (srcs, leaves) = build_sources::<E, D>(shapes, pre, make)?;
+            (combine_chain(srcs, form, name)?, leaves)
+        }
+        Root::Stack { pos, name, form, n, shape, pre } => {
+            let shapes = vec![shape.clone(); *n];
+            macro_rules! st {
+                ($DS:literal, $DD:literal, $f:ident) => {{
+                    let (srcs, leaves) = build_sources::<E, $DS>(&shapes, pre, make)?;
+                    let b: BoxT<E, $DD> = $f(srcs, form, (*pos, *name))?;
+                    (any_cast::<BoxT<E, $DD>, BoxT<E, D>>(b), leaves)
+                }};
+            }
+            match D {
+                1 => st!(0, 1, stack_0),
+                2 => st!(1, 2, stack_1),
+                3 => st!(2, 3, stack_2),
+                4 => st!(3, 4, stack_3),
+                5 => st!(4, 5, stack_4),
+                6 => st!(5, 6, stack_5),
+                _ => return Err("reject".into()),
+            }
+        }
+    };
+    match apply_adaptors(src, post, panicking) {
+        Ok(src) => Ok((src, leaves)),
+        Err(e) => Err(e),
+    }
+}
+
+fn root_dims(root: &Root) -> usize {
+    match root {
+        Root::Stack { shape, .. } => shape.len() + 1,
+        Root::Chain { shapes, .. } => shapes[0].len(),
+    }
+}
+
+fn leaf_ids<E>(leaves: &[LeafInfo<E>]) -> Vec<usize> {
+    leaves
+        .iter()
+        .enumerate()
+        .flat_map(|(j, l)| (0..l.len).map(move |o| j * LEAF_STRIDE + o))
+        .collect()
+}
+
+fn zip_u64<const D: usize>(root: &Root, post: &[TAd], op: &Op) -> String {
+    let (src, leaves) = match build_zip::<u64, D>(root, post, |id| id, true) {
+        Ok(x) => x,
+        Err(e) => return e,
+    };
+    let base = Base::of(&leaves.iter().map(|l| (l.base, l.len)).collect::<Vec<_>>());
+    // `src` (and with it every borrow of the leaves) is consumed here
+    let (recs, written) = match boxed_u64(src, op, base) {
+        Ok(x) => x,
+        Err(e) => return e,
+    };
+    match written {
+        Some(cells) => {
+            let ids = leaf_ids(&leaves);
+            let values: Vec<u64> = leaves.iter().flat_map(|l| l.leaf.map_cells(&|v| *v)).collect();
+            let now: Vec<(usize, u64)> = ids.into_iter().zip(values.into_iter()).collect();
+            format!("{}{}", recs, distinct_report_ids(&cells, &now))
+        }
+        None => recs,
+    }
+}
+
+fn zip_owned<const D: usize>(root: &Root, post: &[TAd], op: &Op) -> String {
+    drops_reset();
+    let (src, leaves) = match build_zip::<Dc, D>(root, post, Dc::new, true) {
+        Ok(x) => x,
+        Err(e) => return e,
+    };
+    let numeric = op.via.ends_with("_numeric");
+    let (recs, moved) = match boxed_owned(src, op) {
+        Ok(x) => x,
+        Err(e) => return e,
+    };
+    if op.op == "left" {
+        let s = show_left(
+            leaves.iter().flat_map(|l| l.leaf.map_cells(&|d| d.id)).map(|id| Dc { id }.show_forget()),
+        );
+        drop(moved);
+        return s;
+    }
+    drop(moved);
+    let ids = leaf_ids(&leaves);
+    drop(leaves);
+    format!("{}{}", recs, drops_report_ids(ids.into_iter(), numeric))
+}
+
+fn zip_header<const D: usize>(root: &Root, post: &[TAd]) -> String {
+    match build_zip::<u64, D>(root, post, |id| id, false) {
+        Ok((src, _leaves)) => format!("ok shape={}", show_shape(&src.view_shape())),
+        Err(e) => e,
+    }
+}
+
+fn parse_root(toks: &[&str]) -> (Root, Vec<TAd>) {
+    // toks: ["stack", "<pos>.<name>", form, n, shape, adaptors…] | ["chain", name, form, shapes, adaptors…]
+    let (rest, mk): (&[&str], Box<dyn Fn(Vec<TAd>) -> Root>) = match toks {
+        ["stack", along, form, n, shape, rest @ ..] => {
+            let (pos, name) = along.split_once('.').expect("pos.name");
+            let pos: usize = pos.parse().unwrap();
+            let name = intern(name);
+            let form = form.to_string();
+            let n: usize = n.parse().unwrap();
+            let shape = parse_shape(shape);
+            (rest, Box::new(move |pre| Root::Stack { pos, name, form: form.clone(), n, shape: shape.clone(), pre }))
+        }
+        ["chain", name, form, shapes, rest @ ..] => {
+            let name = intern(name);
+            let form = form.to_string();
+            let shapes: Vec<Vec<(&'static str, usize)>> = shapes.split('|').map(parse_shape).collect();
+            (rest, Box::new(move |pre| Root::Chain { name, form: form.clone(), shapes: shapes.clone(), pre }))
+        }
+        _ => panic!("bad zip header"),
+    };
+    let pre: Vec<TAd> = rest.iter().filter_map(|t| t.strip_prefix("pre:")).map(parse_tad).collect();
+    let post: Vec<TAd> = rest.iter().filter(|t| !t.starts_with("pre:")).map(|t| parse_tad(t)).collect();
+    (mk(pre), post)
 }
 
 fn shape_iter<const D: usize>(lens: &[usize], n: usize) -> String {
@@ -1057,7 +1436,7 @@ macro_rules! matrix_kinds {
 fn matrix_u64(rows: usize, cols: usize, ads: &[MAd], op: &Op) -> String {
     let total = rows * cols;
     let leaf = Leaf::new(Matrix::from_flat_row_major((rows, cols), (0..total as u64).collect()));
-    let base = Base(leaf.get().get_reference(0, 0) as *const u64);
+    let base = Base::single(leaf.get().get_reference(0, 0) as *const u64);
     let a = op.a;
     let into = op.into;
     let split = op.split.unwrap_or(0);
@@ -1233,6 +1612,7 @@ enum Case {
     None,
     Shape(Vec<usize>),
     Tensor(Vec<(&'static str, usize)>, Vec<TAd>),
+    Zip(Root, Vec<TAd>),
     Matrix(usize, usize, Vec<MAd>),
 }
 
@@ -1274,6 +1654,14 @@ impl Runner {
                 self.case = if ans.starts_with("ok") { Case::Tensor(shape, ads) } else { Case::None };
                 ans
             }
+            ["@", kind @ ("stack" | "chain"), rest @ ..] => {
+                let mut toks: Vec<&str> = vec![*kind];
+                toks.extend_from_slice(rest);
+                let (root, post) = parse_root(&toks);
+                let ans = with_d!(root_dims(&root), D => zip_header::<D>(&root, &post));
+                self.case = if ans.starts_with("ok") { Case::Zip(root, post) } else { Case::None };
+                ans
+            }
             ["@", "matrix", rows_s, cols_s, ads @ ..] => {
                 let rows: usize = rows_s.parse().unwrap();
                 let cols: usize = cols_s.parse().unwrap();
@@ -1295,6 +1683,13 @@ impl Runner {
                             with_d!(shape.len(), D => tensor_owned::<D>(shape, ads, &o))
                         } else {
                             with_d!(shape.len(), D => tensor_u64::<D>(shape, ads, &o))
+                        }
+                    }
+                    Case::Zip(root, post) => {
+                        if o.f == "owned" {
+                            with_d!(root_dims(root), D => zip_owned::<D>(root, post, &o))
+                        } else {
+                            with_d!(root_dims(root), D => zip_u64::<D>(root, post, &o))
                         }
                     }
                     Case::Matrix(rows, cols, ads) => {
@@ -1820,10 +2215,221 @@ fn gen_matrix_cases(g: &mut Gen) {
     }
 }
 
+
+/// `emit_tensor_ops` picks the API forms from the adaptor list; a stacked / chained source is
+/// reachable only as a boxed composition, like a source under two or more adaptors
+fn zip_vias_marker() -> Vec<TAd> {
+    vec![TAd::Reverse(vec![]), TAd::Reverse(vec![])]
+}
+
+const ZIP_FORMS: [(&str, usize); 7] =
+    [("array", 1), ("array", 2), ("array", 3), ("array", 4), ("tuple", 2), ("tuple", 3), ("tuple", 4)];
+
+fn random_post(g: &mut Gen, shape: &[(&'static str, usize)], max_depth: usize) -> (Vec<TAd>, Vec<(&'static str, usize)>) {
+    let mut ads = vec![];
+    let mut cur = shape.to_vec();
+    for _ in 0..g.rng.below(max_depth + 1) {
+        if let Some(ad) = random_tad(g, &cur) {
+            cur = shape_after(&cur, &ad);
+            ads.push(ad);
+        }
+    }
+    (ads, cur)
+}
+
+fn gen_zip_cases(g: &mut Gen) {
+    let mut rot = 0usize;
+    let mut src_shapes = shapes_up_to(3, 6);
+    // a few sources of higher dimensionality (results up to D = 6)
+    src_shapes.push(vec![1, 2, 1, 2]);
+    src_shapes.push(vec![2, 1, 1, 1, 2]);
+    src_shapes.push(vec![1, 1, 2, 1, 1]);
+    for lens in src_shapes {
+        let shape = named(g, &lens);
+        let ds = shape.len();
+        // ---- TensorStack
+        let forms: Vec<(&str, usize)> = if g.thorough {
+            ZIP_FORMS.to_vec()
+        } else {
+            rot += 1;
+            vec![ZIP_FORMS[rot % 7], ZIP_FORMS[(rot * 3 + 1) % 7]]
+        };
+        for (form, n) in forms {
+            let pos = g.rng.below(ds + 1);
+            let (pre, cur_src) =
+                if ds > 0 && g.rng.chance(1, 2) { random_post(g, &shape, 1) } else { (vec![], shape.clone()) };
+            let mut stacked = cur_src.clone();
+            stacked.insert(pos, (intern("s"), n));
+            let (post, cur) = random_post(g, &stacked, 2);
+            let mut header = format!("@ stack {}.s {} {} {}", pos, form, n, show_shape(&shape));
+            for ad in &pre {
+                header.push_str(&format!(" pre:{}", show_tad(ad)));
+            }
+            for ad in &post {
+                header.push_str(&format!(" {}", show_tad(ad)));
+            }
+            g.op(header);
+            g.count(&format!("zip.stack.{}{}", form, n));
+            g.count(&format!("zip.stack.pre={}.post={}", pre.len(), post.len()));
+            g.count(&format!("tensor.D={}", cur.len()));
+            emit_tensor_ops(g, &cur, &zip_vias_marker(), g.thorough || n == 4);
+        }
+        // ---- TensorChain (needs a dimension to chain along)
+        if ds == 0 {
+            continue;
+        }
+        let forms: Vec<(&str, usize)> = if g.thorough {
+            ZIP_FORMS.to_vec()
+        } else {
+            vec![ZIP_FORMS[(rot * 5 + 2) % 7], ZIP_FORMS[(rot + 4) % 7]]
+        };
+        for (form, n) in forms {
+            let c = g.rng.below(ds);
+            // sources of different lengths along the chained dimension
+            let shapes: Vec<Vec<(&'static str, usize)>> = (0..n)
+                .map(|_| {
+                    let mut sh = shape.clone();
+                    sh[c].1 = g.rng.range(1, 3);
+                    sh
+                })
+                .collect();
+            // an adaptor under the chain that keeps the sources chainable
+            let pre: Vec<TAd> = if g.rng.chance(1, 2) {
+                let mut found = vec![];
+                for _ in 0..6 {
+                    match random_tad(g, &shapes[0]) {
+                        Some(ad @ (TAd::Reverse(_) | TAd::Access(_) | TAd::Rename(_))) => {
+                            found.push(ad);
+                            break;
+                        }
+                        _ => {}
+                    }
+                }
+                found
+            } else {
+                vec![]
+            };
+            let after: Vec<Vec<(&'static str, usize)>> = shapes
+                .iter()
+                .map(|sh| pre.iter().fold(sh.clone(), |cur, ad| shape_after(&cur, ad)))
+                .collect();
+            // where the chained dimension went, and what it is called now
+            let along_name = match pre.first() {
+                Some(TAd::Rename(names)) => names[c],
+                _ => shape[c].0,
+            };
+            let c_after = after[0].iter().position(|d| d.0 == along_name).expect("chained dimension");
+            let mut chained = after[0].clone();
+            chained[c_after].1 = after.iter().map(|sh| sh[c_after].1).sum();
+            let (post, cur) = random_post(g, &chained, 2);
+            let mut header = format!(
+                "@ chain {} {} {}",
+                along_name,
+                form,
+                shapes.iter().map(|sh| show_shape(sh)).collect::<Vec<_>>().join("|")
+            );
+            for ad in &pre {
+                header.push_str(&format!(" pre:{}", show_tad(ad)));
+            }
+            for ad in &post {
+                header.push_str(&format!(" {}", show_tad(ad)));
+            }
+            g.op(header);
+            g.count(&format!("zip.chain.{}{}", form, n));
+            g.count(&format!("zip.chain.pre={}.post={}", pre.len(), post.len()));
+            g.count(&format!("tensor.D={}", cur.len()));
+            emit_tensor_ops(g, &cur, &zip_vias_marker(), g.thorough || n >= 3);
+        }
+    }
+    // what the constructors refuse
+    for header in [
+        "@ stack 0.a tuple 2 a:2",                 // the new name is already in the sources
+        "@ stack 3.s array 2 a:2",                 // position beyond the dimensions
+        "@ chain b array a:1,b:2|a:2,b:1",         // another dimension differs
+        "@ chain zz tuple a:1,b:2|a:1,b:1",        // unknown dimension
+        "@ chain b tuple a:1,b:2|b:1,a:1",         // different dimension order
+    ] {
+        g.op(header.to_string());
+        g.count("zip.rejected");
+    }
+}
+
+/// larger sides and dimensionalities, so that any size-gated path would be exercised
+fn gen_large_cases(g: &mut Gen) {
+    let shapes: Vec<Vec<usize>> = vec![
+        vec![2, 1, 3, 1, 9],
+        vec![1, 2, 1, 2, 1, 12],
+        vec![3, 1, 2, 2, 2, 2],
+        vec![10, 1, 1, 1, 11],
+        vec![1, 1, 12, 1, 1, 9],
+        vec![9, 12],
+        vec![12, 11, 2],
+        vec![70],
+        vec![2, 2, 2, 2, 2, 2],
+    ];
+    for lens in &shapes {
+        let total: usize = lens.iter().product();
+        g.op(format!("@ shape {}", show_usizes(lens)));
+        g.op(format!("iter n={} via=shapeiter", total + 3));
+        g.count("large.shape");
+        let shape = named(g, lens);
+        g.op(format!("@ tensor {}", show_shape(&shape)));
+        g.count("large.tensor");
+        g.count(&format!("tensor.D={}", shape.len()));
+        emit_tensor_ops(g, &shape, &[], false);
+        // and under a few adaptors
+        let (ads, cur) = random_post(g, &shape, 2);
+        if !ads.is_empty() {
+            g.op(format!(
+                "@ tensor {} {}",
+                show_shape(&shape),
+                ads.iter().map(show_tad).collect::<Vec<_>>().join(" ")
+            ));
+            g.count("large.tensor.view");
+            emit_tensor_ops(g, &cur, &ads, false);
+        }
+    }
+    for (rows, cols) in [(12usize, 12usize), (11, 12), (1, 70), (70, 1), (2, 35), (9, 10)] {
+        g.op(format!("@ matrix {} {}", rows, cols));
+        g.count("large.matrix");
+        // whole-matrix iterators in every flavour; a sample of rows and columns
+        let total = rows * cols;
+        for k in ["rowmajor", "colmajor"] {
+            for f in FLAVOURS {
+                let wi = g.rng.chance(1, 2);
+                let via = *g.rng.pick(&matrix_vias(&[], f));
+                let w = wvia(g, wi);
+                g.op(format!("iter k={} f={} wi={} n={} via={}{}", k, f, wi as u8, total + 3, via, w));
+                g.count_n("matrix.records", (total + 3) as u64);
+            }
+        }
+        for a in [0, rows / 2, rows - 1, rows] {
+            let f = *g.rng.pick(&["copy", "ref", "mut"]);
+            let via = *g.rng.pick(&matrix_vias(&[], f));
+            g.op(format!("iter k=row a={} f={} wi=0 n={} via={}", a, f, cols + 3, via));
+        }
+        for a in [0, cols / 2, cols - 1, cols] {
+            let f = *g.rng.pick(&["copy", "ref", "mut"]);
+            let via = *g.rng.pick(&matrix_vias(&[], f));
+            g.op(format!("iter k=col a={} f={} wi=0 n={} via={}", a, f, rows + 3, via));
+        }
+        g.op(format!("iter k=diag f=mut wi=0 n={} via=from", std::cmp::min(rows, cols) + 3));
+        g.op(format!("left k=colmajor n={} via=from", total / 2));
+        // a view into the middle of it
+        g.op(format!("@ matrix {} {} range:1.{}.0.{} reverse:c", rows, cols, rows, cols.saturating_sub(1)));
+        g.count("large.matrix.view");
+        let (r, c) = (rows.saturating_sub(1), cols.saturating_sub(1));
+        g.op(format!("iter k=rowmajor f=mut wi=1 n={} via=from", r * c + 3));
+        g.op(format!("iter k=colmajor f=owned wi=1 n={} via=from_numeric", r * c + 3));
+    }
+}
+
 pub fn gen(g: &mut Gen) {
     gen_shape_cases(g);
     gen_tensor_cases(g);
+    gen_zip_cases(g);
     gen_matrix_cases(g);
+    gen_large_cases(g);
 }
 
 #[allow(unused)]
